@@ -186,9 +186,11 @@ def timers_run(ctx, seed):
             noise = [spi_i + spi_r + bytes([0, 0x20, 37, 0x00]) + struct.pack('>LL', sa.peer_msg_id, 28),   # cleartext
                      spi_i + spi_r + bytes([0, 0x20, 37, 0x20]) + struct.pack('>LL', sa.my_msg_id, 28),
                      p.history[1][2],                        # replay of the cleartext IKE_SA_INIT response
-                     p.history[3][2][:-1] + bytes([p.history[3][2][-1] ^ 1])]   # corrupted authentic datagram
+                     p.history[3][2][:-1] + bytes([p.history[3][2][-1] ^ 1]),   # corrupted authentic datagram
+                     p.history[3][2]]                        # AUTHENTIC but old (the IKE_AUTH response again): F23
             for _ in range(6):
-                # nothing authentic arrives, but unauthenticated datagrams keep coming: they must not count as liveness
+                # nothing fresh arrives, but unauthenticated datagrams and a copy of an old authentic one keep coming: they
+                # must not count as liveness
                 for d in noise:
                     p.A.datagram('192.168.0.1', '192.168.0.2', d)
                 out = p.do(['tick', 1])
